@@ -115,3 +115,13 @@ def install_trace_funcs(reg):
         return evs[k][1][1][i]
 
     sf["input_arg"] = input_arg
+
+    def in_state(it, obj, *names):
+        """obj (an Automat machine instance) is in one of the named states"""
+        obj = it.force(obj)
+        cd = it.reg.repo_classes.get(obj.cls)
+        m = it.reg.automat.machine_of(cd)
+        st = obj.fields["__state"].z
+        return VBool(z3.Or([st == m.index(it.concrete(n)) for n in names]))
+
+    sf["in_state"] = in_state
